@@ -3,7 +3,7 @@ From Coq Require Import String.
 From Coq Require Import ZArith List Bool.
 From LasV Require Import Lib.Base Lib.Layout Gen.GenHeaderLayout Gen.GenFormatBits Gen.GenDims Model.Las Model.LasSpec
   Model.WriterAlias Proofs.HeaderLen Proofs.VlrProofs Proofs.HeaderProofs Proofs.WriterProofs Proofs.RoundTripProofs
-  Proofs.WriterAliasProofs Proofs.StatsFoldProofs.
+  Proofs.WriterAliasProofs Proofs.StatsFoldProofs Model.WriterFault Proofs.WriterFaultProofs.
 Import ListNotations.
 Open Scope list_scope.
 Open Scope Z_scope.
@@ -200,4 +200,93 @@ Example C04_origin_nonvacuous :
                 | Ok f => list_eqb f (w_file s) | Err _ => false end
   | Err _ => false
   end = true.
+Proof. vm_compute. reflexivity. Qed.
+
+(* ---------------------------------------------------------------------------------------------------------------------- *)
+(* round 6: scale-aware chunks of any scaling, faults in the middle of write_evlrs / write_points (Model/WriterFault.v)       *)
+(* ---------------------------------------------------------------------------------------------------------------------- *)
+
+(* chunked writing of ScaleAwarePointRecords of ANY scalings = the one-shot file of the points in the writer's system: each chunk
+   contributes its records as they are when its six scaling values EQUAL the header's, its re-expressed records otherwise *)
+Theorem C04_scaled_chunks_equiv : forall ap, ap_ok ap -> forall h vl fmt (cl : list sachunk) evl s0 s outs,
+  wopen h vl fmt = Ok s0 ->
+  frun ap s0 (map (fun c => FScaled c true) cl ++ map FOp ((match evl with [] => [] | _ => [WEvlrs evl] end) ++ [WClose])) = (s, outs) ->
+  all_ok outs ->
+  file_of ap h vl fmt (concat (map (express (w_h s0)) cl)) evl = Ok (w_file s).
+Proof. exact scaled_chunks_equiv. Qed.
+Print Assumptions C04_scaled_chunks_equiv.
+
+(* the decision has no tolerance: a chunk is stored un-re-expressed only when its scaling denotes the same six binary64 values
+   (bit patterns equal up to the sign of zero) *)
+Theorem C04_rescale_decision_exact : forall h c,
+  all_veq (sa_scaling c) (scaling_of h) = true -> map f64_canon (sa_scaling c) = map f64_canon (scaling_of h).
+Proof. exact stored_raw_only_if_same_values. Qed.
+Print Assumptions C04_rescale_decision_exact.
+
+Theorem C04_other_scaling_is_reexpressed : forall h c, all_veq (sa_scaling c) (scaling_of h) = false -> express h c = sa_resc c.
+Proof. exact express_other. Qed.
+Print Assumptions C04_other_scaling_is_reexpressed.
+
+(* mixed sessions: any sequence of plain and scale-aware chunks is the writer session of what is stored for each *)
+Theorem C04_scaled_session_lowers : forall ap ops s, forallb is_chunk ops = true ->
+  frun ap s ops = wrun_list ap s (lower_all (w_h s) ops).
+Proof. exact frun_chunks. Qed.
+Print Assumptions C04_scaled_session_lowers.
+
+(* a write_evlrs that FAILS - after any number k of bytes, or before anything could be encoded - leaves a finished writer:
+   every later non-empty chunk, plain or scale-aware, raises and changes nothing *)
+Theorem C04_failed_evlrs_finishes_writer : forall ap s l k recs b,
+  aint (w_h s) "version.minor" <? 4 = false -> l <> [] -> recs <> [] ->
+  let s' := fst (fstep ap s (FEvlrsFault l k)) in
+  snd (fstep ap s (FEvlrsFault l k)) <> Ok tt
+  /\ w_done s' = true /\ wstep ap s' (WPoints recs b) = (s', Err ELaspy)
+  /\ forall c, fstep ap s' (FScaled c b) = (s', match express (w_h s') c with [] => Ok tt | _ => Err ELaspy end).
+Proof. exact failed_evlrs_finishes. Qed.
+Print Assumptions C04_failed_evlrs_finishes_writer.
+
+(* ... and the header written at open and every accepted record stay where they are; the count is kept *)
+Theorem C04_failed_evlrs_keeps_points : forall ap s l k s' o,
+  fstep ap s (FEvlrsFault l k) = (s', o) -> 0 <= w_pos s -> (Z.to_nat (w_pos s) <= length (w_file s))%nat ->
+  firstn (Z.to_nat (w_pos s)) (w_file s') = firstn (Z.to_nat (w_pos s)) (w_file s) /\ s_count (w_st s') = s_count (w_st s).
+Proof. exact failed_evlrs_keeps_points. Qed.
+Print Assumptions C04_failed_evlrs_keeps_points.
+
+(* a chunk the destination refused (nothing stored) is not there *)
+Theorem C04_chunk_refused_by_destination : forall ap s recs b, fst (fstep ap s (FPointsFault recs b)) = s.
+Proof. exact refused_by_destination_is_noop. Qed.
+Print Assumptions C04_chunk_refused_by_destination.
+
+(* a close() whose header rewrite the destination refused: finished, file untouched, later chunks refused; closing again gives what the
+   first close would have given *)
+Theorem C04_failed_close_finishes_writer : forall ap s recs b, recs <> [] ->
+  let s' := fst (fstep ap s FCloseFault) in
+  w_file s' = w_file s /\ wstep ap s' (WPoints recs b) = (s', Err ELaspy).
+Proof. exact failed_close_finishes. Qed.
+Print Assumptions C04_failed_close_finishes_writer.
+
+Theorem C04_close_after_failed_close : forall ap s,
+  snd (fstep ap (fst (fstep ap s FCloseFault)) (FOp WClose)) = snd (fstep ap s (FOp WClose))
+  /\ w_file (fst (fstep ap (fst (fstep ap s FCloseFault)) (FOp WClose))) = w_file (fst (fstep ap s (FOp WClose))).
+Proof. exact close_after_failed_close. Qed.
+Print Assumptions C04_close_after_failed_close.
+
+(* non-vacuity: a chunk whose scaling equals the header's up to the sign of a zero offset is stored as it is, a chunk refused by the
+   destination leaves no trace, a chunk whose x scale is one ulp larger is stored re-expressed; a failed write_evlrs on a 1.4 header
+   finishes the writer *)
+Definition ex_sc_same : list Z := [4607182418800017408; 0; 0; 0; 9223372036854775808; 0].
+Definition ex_sc_ulp : list Z := [4607182418800017409; 0; 0; 0; 0; 0].
+Definition ex_h14 : assoc := aset ex_h "version.minor" (VInt 4).
+Example C04_fault_nonvacuous :
+  match wopen ex_h [] 0 with
+  | Ok s0 => let '(s, outs) := frun ex_ap s0 [FScaled (mkSA ex_sc_same [ex_r 5] [ex_r 6]) true; FPointsFault [ex_r 1] true;
+                                             FScaled (mkSA ex_sc_ulp [ex_r 7] [ex_r 8]) true; FOp WClose] in
+             match file_of ex_ap ex_h [] 0 [ex_r 5; ex_r 8] [] with
+             | Ok f => list_eqb f (w_file s) && (len outs =? 4) | Err _ => false end
+  | Err _ => false
+  end
+  && match wopen ex_h14 [] 0 with
+     | Ok s0 => let '(s, outs) := frun ex_ap s0 [FOp (WPoints [ex_r 5] true); FEvlrsFault [mkVlr [65] 7 [] [1; 2; 3]] 30; FOp (WPoints [ex_r 9] true)] in
+                w_done s && (len (w_file s) =? 375 + 20 + 30) && negb (forallb is_ok (tl outs))
+     | Err _ => false
+     end = true.
 Proof. vm_compute. reflexivity. Qed.
